@@ -1,0 +1,24 @@
+//go:build verif
+
+// Contracts for the deductive verifier in /verif (comment-only; compiled only
+// with -tags verif).  Syntax: see /verif/DESIGN.md.
+package locking
+
+// C16: the local lock cache answers "is this file locked by the current
+// committer" by path alone, so it may only ever hold locks of the current
+// user.  lock_mine(l) is the server's classification (ours / theirs).
+//@ iface (lockClient).SearchVerifiable
+//@   modifies fresh
+//@   ensures result2 == nil ==> result0 != nil
+//@   ensures forall_int(i, result0.Ours[i], 0 <= i && i < len(result0.Ours) ==> lock_mine(result0.Ours[i]))
+//@   ensures forall_int(i, result0.Theirs[i], 0 <= i && i < len(result0.Theirs) ==> !lock_mine(result0.Theirs[i]))
+
+//@ func (*Client).SearchLocksVerifiable
+//@   props C16
+//@   at call (locking.LockCacher).Add:1 assert lock_mine(arg1__)
+//@   at call (locking.LockCacher).Add:2 assert lock_mine(arg1__)
+
+//@ iface (LockCacher).Add
+//@   modifies fresh
+//@ iface (LockCacher).Clear
+//@   modifies fresh
